@@ -111,7 +111,7 @@ PROPS["C27"] = dict(
 NOT_APPLICABLE = {}
 
 # Commits in /repo that add the cfg/feature-guarded hooks.
-HOOK_COMMITS = ["97d4409"]
+HOOK_COMMITS = ["97d4409", "04e2412"]
 
 # Further groups live in their own modules (props_*.py), each exposing `register(PROPS, helpers)`.
 import glob as _glob
